@@ -125,7 +125,12 @@ func (batch *Batch) close() (err error) {
 // Note that checking errors on a batch is optional, calling Read or ReadMessage
 // is always valid and can be used to either read a message or an error in cases
 // where that's convenient.
-func (batch *Batch) Err() error { return batch.err }
+func (batch *Batch) Err() error {
+	batch.mutex.Lock()
+	err := batch.err
+	batch.mutex.Unlock()
+	return err
+}
 
 // Read reads the value of the next message from the batch into b, returning the
 // number of bytes read, or an error if the next message couldn't be read.
@@ -209,7 +214,15 @@ func (batch *Batch) ReadMessage() (Message, error) {
 	)
 	// A batch may start before the requested offset so skip messages
 	// until the requested offset is reached.
-	for batch.conn != nil && offset < batch.conn.offset {
+	var connOffset int64
+	if batch.conn != nil {
+		// the connection offset is guarded by the connection's mutex (Seek
+		// may run concurrently); same lock order as in Batch.close.
+		batch.conn.mutex.Lock()
+		connOffset = batch.conn.offset
+		batch.conn.mutex.Unlock()
+	}
+	for batch.conn != nil && offset < connOffset {
 		if err != nil {
 			break
 		}
